@@ -8,6 +8,7 @@ pub mod engine;
 pub mod gl;
 pub mod tape;
 pub mod lit;
+pub mod gen;
 pub mod textmut;
 pub mod props;
 
@@ -18,7 +19,25 @@ fn usage() -> ! {
     std::process::exit(2)
 }
 
+struct StderrLog;
+impl log::Log for StderrLog {
+    fn enabled(&self, m: &log::Metadata) -> bool {
+        std::env::var("GVERIF_LOG").map(|f| m.target().contains(&f)).unwrap_or(false)
+    }
+    fn log(&self, r: &log::Record) {
+        if self.enabled(r.metadata()) {
+            eprintln!("[{} {}] {}", r.level(), r.target(), r.args());
+        }
+    }
+    fn flush(&self) {}
+}
+static LOGGER: StderrLog = StderrLog;
+
 fn main() {
+    if std::env::var("GVERIF_LOG").is_ok() {
+        let _ = log::set_logger(&LOGGER);
+        log::set_max_level(log::LevelFilter::Trace);
+    }
     let args: Vec<String> = std::env::args().collect();
     if args.len() < 2 {
         usage();
